@@ -484,7 +484,9 @@ func c18Judge(w *W, src string, cmds []ast.Command, cfgs []*printer.Config, faul
 		w.Count("traces_validated_against_impl", 1)
 		back, _, perr := parseAll(out)
 		if perr != nil {
-			continue // C05 judges re-parsability
+			// no fix-point without a re-parse (C05 judges this too, with the tree comparison)
+			w.Violation(c18Class("printed-text-rejected", src, out), printCase{src, ci}, fmt.Sprintf("formatting is not a fix-point under %s: %q prints as %q, which cannot be re-parsed and printed again: %v", configName(ci), src, out, perr))
+			return
 		}
 		again, _, _ := printAll(cfg, back)
 		if again != out {
